@@ -286,6 +286,10 @@ local _orig_type = type
 local _orig_unpack = unpack
 local _orig_xpcall = xpcall
 
+-- No use for serialised functions in a sandbox that refuses binary chunks
+-- (Scribunto removes string.dump as well)
+string.dump = nil
+
 -- An exception raised by a Python helper arrives as the exception object.
 -- Code from pages only ever gets its message: the object (and what hangs off
 -- it: sockets, connection pools, ...) stays out of the sandbox.
